@@ -682,6 +682,91 @@ impl<S: Service> Scenario for RrOvf<S> {
 }
 
 // ------------------------------------------------------------------------------------------
+// publish-subscribe, TWO publishers, one subscriber holding a Sample of each, with a configured
+// subscriber_expired_connection_buffer (1) smaller than the subscriber's max borrowed samples (3)
+//   slots: node svc publisher1 publisher2 subscriber sample1 sample2
+//   when both publishers are gone while their samples are still held the subscriber has to keep
+//   BOTH expired connections (each has a borrow): receive() must keep working, both samples must
+//   stay readable.  The publishers' probes take ONE loan at a time (no chunk of a reclaimed
+//   connection can be re-loaned that way, so the known sample-outlives-subscriber finding does
+//   not show here).
+// ------------------------------------------------------------------------------------------
+const CANARY_P1: u64 = 0xC17B_0000_0000_0011;
+const CANARY_P2: u64 = 0xC17B_0000_0000_0022;
+
+struct Ps2<S: Service> {
+    node: Option<Node<S>>,
+    svc: Option<publish_subscribe::PortFactory<S, u64, ()>>,
+    publisher1: Option<Publisher<S, u64, ()>>,
+    publisher2: Option<Publisher<S, u64, ()>>,
+    subscriber: Option<Subscriber<S, u64, ()>>,
+    sample1: Option<Sample<S, u64, ()>>,
+    sample2: Option<Sample<S, u64, ()>>,
+}
+
+impl<S: Service> Ps2<S> {
+    fn build(cfg: &Config, _nn: usize) -> Self {
+        let mut cfg = cfg.clone();
+        cfg.defaults.publish_subscribe.subscriber_expired_connection_buffer = 1;
+        let node = NodeBuilder::new().name(&node_name(0)).config(&cfg).create::<S>().expect("node");
+        let svc = node.service_builder(&service_name()).publish_subscribe::<u64>()
+            .max_publishers(2).subscriber_max_borrowed_samples(3).subscriber_max_buffer_size(4).create().expect("create service");
+        let publisher1 = svc.publisher_builder().create().expect("publisher1");
+        let publisher2 = svc.publisher_builder().create().expect("publisher2");
+        let subscriber = svc.subscriber_builder().create().expect("subscriber");
+        publisher1.send_copy(CANARY_P1).expect("send 1");
+        publisher2.send_copy(CANARY_P2).expect("send 2");
+        let x = subscriber.receive().expect("receive").expect("first sample");
+        let y = subscriber.receive().expect("receive").expect("second sample");
+        let (sample1, sample2) = if *x.payload() == CANARY_P1 { (x, y) } else { (y, x) };
+        assert_eq!(*sample1.payload(), CANARY_P1);
+        assert_eq!(*sample2.payload(), CANARY_P2);
+        Ps2 { node: Some(node), svc: Some(svc), publisher1: Some(publisher1), publisher2: Some(publisher2), subscriber: Some(subscriber), sample1: Some(sample1), sample2: Some(sample2) }
+    }
+}
+
+impl<S: Service> Scenario for Ps2<S> {
+    fn names(&self) -> Vec<&'static str> {
+        vec!["node", "svc", "publisher1", "publisher2", "subscriber", "sample1", "sample2"]
+    }
+    fn alive(&self, k: usize) -> bool {
+        match k { 0 => self.node.is_some(), 1 => self.svc.is_some(), 2 => self.publisher1.is_some(), 3 => self.publisher2.is_some(), 4 => self.subscriber.is_some(), 5 => self.sample1.is_some(), 6 => self.sample2.is_some(), _ => false }
+    }
+    fn drop_slot(&mut self, k: usize) {
+        match k { 0 => drop(self.node.take()), 1 => drop(self.svc.take()), 2 => drop(self.publisher1.take()), 3 => drop(self.publisher2.take()), 4 => drop(self.subscriber.take()), 5 => drop(self.sample1.take()), 6 => drop(self.sample2.take()), _ => {} }
+    }
+    fn smoke(&mut self, k: usize, round: u64) -> Result<(), String> {
+        match k {
+            0 => node_smoke(self.node.as_ref().unwrap()),
+            1 => {
+                let s = self.svc.as_ref().unwrap();
+                let _ = s.dynamic_config().number_of_publishers();
+                let mut c = 0;
+                res(s.nodes(|_| { c += 1; CallbackProgression::Continue }))?;
+                if c == 0 { Err("service-lists-no-node".into()) } else { Ok(()) }
+            }
+            2 | 3 => {
+                let p = if k == 2 { self.publisher1.as_ref().unwrap() } else { self.publisher2.as_ref().unwrap() };
+                res(res(p.loan_uninit())?.write_payload(7000 + round).send())?;
+                Ok(())
+            }
+            4 => {
+                let s = self.subscriber.as_ref().unwrap();
+                let _ = res(s.has_samples())?;
+                while let Some(x) = res(s.receive())? {
+                    let v = safe_read_u64(x.payload() as *const u64)?;
+                    if !(7000..8000).contains(&v) { return Err(format!("received-{:x}", v)); }
+                }
+                Ok(())
+            }
+            5 => canary(self.sample1.as_ref().unwrap().payload() as *const u64, CANARY_P1),
+            6 => canary(self.sample2.as_ref().unwrap().payload() as *const u64, CANARY_P2),
+            _ => Ok(()),
+        }
+    }
+}
+
+// ------------------------------------------------------------------------------------------
 // blackboard
 // ------------------------------------------------------------------------------------------
 struct Bb<S: Service> {
@@ -992,7 +1077,7 @@ fn nth_permutation(n: usize, mut idx: u64) -> Vec<usize> {
 }
 
 fn nslots_of(pattern: &str, nn: usize) -> usize {
-    2 * nn + match pattern { "pubsub" => 4, "event" => 2, "reqres" => if nn == 1 { 5 } else { 4 }, "blackboard" => 4, "reqres2" => 7, "rrovf" => 6, _ => 0 }
+    2 * nn + match pattern { "pubsub" => 4, "event" => 2, "reqres" => if nn == 1 { 5 } else { 4 }, "blackboard" => 4, "reqres2" => 7, "rrovf" => 6, "ps2" => 5, _ => 0 }
 }
 
 fn orders(a: &[String], n: usize) -> Vec<Vec<usize>> {
@@ -1028,18 +1113,19 @@ fn orders(a: &[String], n: usize) -> Vec<Vec<usize>> {
             let nshards: u64 = a[6].parse().unwrap();
             let seed: u64 = a[7].parse().unwrap();
             let count: u64 = a[8].parse().unwrap();
-            let (srv, cli): (Vec<usize>, Vec<usize>) = if a[3] == "rrovf" { (vec![3, 4], vec![0, 1, 2, 5, 6, 7]) } else { (vec![3, 7, 8], vec![0, 1, 2, 4, 5, 6]) };
+            let (srv, cli): (Vec<usize>, Vec<usize>) = if a[3] == "rrovf" { (vec![3, 4], vec![0, 1, 2, 5, 6, 7]) } else if a[3] == "ps2" { (vec![2, 3], vec![0, 1, 4, 5, 6]) } else { (vec![3, 7, 8], vec![0, 1, 2, 4, 5, 6]) };
             let mut rng = Rng(seed ^ 0xFA17);
             let mut v = vec![];
             let mut idx = 0u64;
             let nso: u64 = (1..=srv.len() as u64).product();
             for so in 0..nso {
                 let sp = nth_permutation(srv.len(), so);
-                let ncli = if count == 0 { 720 } else { count };
+                let nc = cli.len();
+                let ncli = if count == 0 { (1..=nc as u64).product() } else { count };
                 for c in 0..ncli {
-                    let cp = if count == 0 { nth_permutation(6, c) } else {
-                        let mut p: Vec<usize> = (0..6).collect();
-                        for i in (1..6).rev() { let j = rng.below(i as u64 + 1) as usize; p.swap(i, j); }
+                    let cp = if count == 0 { nth_permutation(nc, c) } else {
+                        let mut p: Vec<usize> = (0..nc).collect();
+                        for i in (1..nc).rev() { let j = rng.below(i as u64 + 1) as usize; p.swap(i, j); }
                         p
                     };
                     if idx % nshards == shard {
@@ -1069,6 +1155,7 @@ fn run_variant<S: Service>(a: &[String], fs: bool) {
             "event" => run_perm::<S, Ev<S>>(variant, pattern, nn, fs, &order, case_no, &Ev::<S>::build, &Ev::<S>::recreate),
             "reqres" => run_perm::<S, ReqRes<S>>(variant, pattern, nn, fs, &order, case_no, &ReqRes::<S>::build, &ReqRes::<S>::recreate),
             "blackboard" => run_perm::<S, Bb<S>>(variant, pattern, nn, fs, &order, case_no, &Bb::<S>::build, &Bb::<S>::recreate),
+            "ps2" => run_perm::<S, Ps2<S>>(variant, pattern, 1, fs, &order, case_no, &Ps2::<S>::build, &PubSub::<S>::recreate),
             "rrovf" => run_perm::<S, RrOvf<S>>(variant, pattern, 1, fs, &order, case_no, &RrOvf::<S>::build, &ReqRes::<S>::recreate),
             "reqres2" => run_perm::<S, ReqRes2<S>>(variant, pattern, 1, fs, &order, case_no, &ReqRes2::<S>::build, &ReqRes::<S>::recreate),
             p => panic!("unknown pattern {}", p),
